@@ -34,11 +34,17 @@ theorem declaresDefault_eq (s : Schema) : D6.declaresDefault s = declaresDefault
 theorem injOn_of_flag {cx : PCtx} {k : SKw} {props : List (String × Schema)} (h : noCollapse cx k props = true) :
     InjOn cx (props.map (·.1) ++ k.required.getD []) := by
   unfold noCollapse at h
-  simp only [List.all_eq_true, Bool.or_eq_true, bne_iff_ne, ne_eq, beq_iff_eq] at h
+  simp only [Bool.and_eq_true, List.all_eq_true, Bool.or_eq_true, bne_iff_ne, ne_eq, beq_iff_eq] at h
   intro a ha b hb hab
-  rcases h a ha b hb with h1 | h1
+  rcases h.2 a ha b hb with h1 | h1
   · exact absurd hab h1
   · exact h1
+
+theorem nonempty_of_flag {cx : PCtx} {k : SKw} {props : List (String × Schema)} (h : noCollapse cx k props = true) :
+    ∀ n ∈ props.map (·.1) ++ k.required.getD [], n ≠ "" := by
+  unfold noCollapse at h
+  simp only [Bool.and_eq_true, List.all_eq_true, bne_iff_ne, ne_eq] at h
+  exact h.1
 
 /-- everything the node-level lemma needs, read off the node's flags -/
 theorem nodeOK_of_flags {env : Env} {cx : PCtx} {k : SKw} {items : List Schema} {props pats : List (String × Schema)}
@@ -59,7 +65,8 @@ theorem nodeOK_of_flags {env : Env} {cx : PCtx} {k : SKw} {items : List Schema} 
   unfold wfNode at hwf
   simp only [Bool.and_eq_true] at hwf
   obtain ⟨⟨⟨⟨⟨⟨⟨⟨⟨⟨⟨⟨⟨⟨⟨⟨⟨⟨⟨⟨hty, hik⟩, _⟩, _⟩, _⟩, hany⟩, hone⟩, hall⟩, hpd⟩, _⟩, _⟩, hreq⟩, _⟩, _⟩, _⟩, _⟩, _⟩, _⟩, _⟩, _⟩, _⟩ := hwf
-  refine ⟨⟨hlit, hmul, ?_, ?_, ?_, ?_, ?_⟩, ?_, by simpa using hany, by simpa using hone, by simpa using hall⟩
+  refine ⟨⟨hlit, hmul, ?_, ?_, ?_, ?_, ?_, by rw [hnames]; exact nonempty_of_flag hcol⟩, ?_, by simpa using hany,
+    by simpa using hone, by simpa using hall⟩
   · cases hk : k.itemsKind <;> simp_all
   · rw [hnames]; exact hpd
   · cases hr : k.required with
